@@ -7,3 +7,8 @@ package storeapi
 func (g *GrpcV1) VerifBusySearchWorkers() int {
 	return g.searchData.searcher.VerifBusyWorkers()
 }
+
+// VerifInflight returns the counters of search and bulk requests in flight.
+func (g *GrpcV1) VerifInflight() (searches, bulks int64) {
+	return g.searchData.inflight.Load(), g.inflightBulks.Load()
+}
